@@ -101,7 +101,9 @@ def construct(groupdir, slabs, cleaned, **kw):
     cfn = [pathlib.Path(f'/clean/cleaned_halo_info/cleaned_halo_info_{s:03d}.asdf') for s in slabs] if cleaned else []
     cat._setup_file_paths = lambda *a, **k: (pathlib.Path(groupdir), pathlib.Path('/clean/cleaned_halo_info') if cleaned else None,
                                              pathlib.Path('/clean/cleaned_rvpid') if cleaned else None, real_np.array(list(slabs)), halo_fns, cfn)
-    cat.__init__(groupdir, cleaned=cleaned, halo_lc=kw.pop('halo_lc', False), **kw)
+    lc = kw.pop('halo_lc', False)
+    # light cones are always cleaned (the reader warns about cleaned=False and switches the cleaning files off itself)
+    cat.__init__(groupdir, cleaned=True if lc else cleaned, halo_lc=lc, **kw)
     return cat
 
 
@@ -136,6 +138,31 @@ def _col_setitem(self, index, value):
 
 
 astropy.table.Column.__setitem__ = _col_setitem
+
+
+def _col_inplace(name, op):
+    """in-place arithmetic of a Column of symbolic cells with a symbolic scalar (numpy would hand the
+    operation to a ufunc, which symbolic scalars refuse): computed cell by cell and stored back INTO the
+    column's own buffer, so aliasing with the per-file raw table behaves as in numpy"""
+    orig = getattr(astropy.table.Column, name)
+
+    def f(self, o):
+        raw = real_np.ndarray.view(self, real_np.ndarray)
+        if core.ctx() is None or raw.dtype != object:
+            return orig(self, o)
+        info = arrays.root_info(self, create=False)
+        dt = info.ld.dt if (info is not None and info.ld is not None and info.ld.dt.kind != 'O') else None
+        ov = real_np.ndarray.view(o, real_np.ndarray) if isinstance(o, real_np.ndarray) else None
+        for idx in real_np.ndindex(*raw.shape):
+            v = op(raw[idx], real_np.broadcast_to(ov, raw.shape)[idx] if ov is not None else o)
+            raw[idx] = arrays.cast_value(v, dt) if dt is not None else v
+        return self
+    return f
+
+
+import operator as _op
+for _n, _o in (('__imul__', _op.mul), ('__itruediv__', _op.truediv), ('__iadd__', _op.add), ('__isub__', _op.sub)):
+    setattr(astropy.table.Column, _n, _col_inplace(_n, _o))
 
 
 # ----------------------------------------------------------------------------------------------
@@ -227,15 +254,20 @@ case = {case!r}
 info = {info!r}
 pid = {pid!r}
 cleaned, subs, convert = case['cleaned'], case['subsamples'], case['convert_units']
+lc = case.get('lightcone', False)
 bad = []
 with tempfile.TemporaryDirectory() as d:
     conc, subsA = {{}}, None
-    if subs:
+    if lc:
+        gdir = realcat.write_lc_catalog(d, m, n=2)
+        kw = dict(halo_lc=True, convert_units=convert, subsamples=False)
+    elif subs:
         conc = {{0: dict(npstartA=np.array([0, 2], dtype=np.uint64), npoutA=np.array([2, 1], dtype=np.uint32),
                         npstartA_merge=np.array([0, 1], dtype=np.int64), npoutA_merge=np.array([1, 0], dtype=np.uint32), N_total=np.array([5, 7], dtype=np.uint32))}}
         subsA = {{0: {{'A': (np.arange(9, dtype=np.int32).reshape(3, 3) * 4096, np.arange(3, dtype=np.int32).reshape(1, 3) * 8192, None, None)}}}}
-    gdir = realcat.write_catalog(d, m, slabs=(0,), nh=2, cleaned=cleaned, subsA=subsA, concrete=conc)
-    kw = dict(cleaned=cleaned, convert_units=convert, subsamples=dict(A=True, pos=True) if subs else False)
+    if not lc:
+        gdir = realcat.write_catalog(d, m, slabs=(0,), nh=2, cleaned=cleaned, subsA=subsA, concrete=conc)
+        kw = dict(cleaned=cleaned, convert_units=convert, subsamples=dict(A=True, pos=True) if subs else False)
     def load(fields):
         try:
             return CompaSOHaloCatalog(gdir, fields=fields, **kw), None
